@@ -19,7 +19,23 @@ const WIDE_PAD: i32 = 135;
 /// sit at dictionary indices above 127 and their keys are written as int16 (htslib picks the
 /// smallest integer type that fits).
 pub fn wide_dictionary(cs: &CallSet) -> bool {
-    cs.samples.iter().map(|s| s.len()).sum::<usize>() % 4 == 0
+    !implicit_dictionary(cs) && cs.samples.iter().map(|s| s.len()).sum::<usize>() % 4 == 0
+}
+
+/// About a third of the call sets (decided by the data itself) get a header *without* `IDX=`
+/// attributes: the dictionary is then defined by order of appearance of the FILTER / INFO / FORMAT
+/// identifiers (PASS first), and the contig dictionary by the order of the contig lines (BCF 2.2,
+/// section 6.2.1). The header lines of this encoder appear in exactly the order of its constants.
+pub fn implicit_dictionary(cs: &CallSet) -> bool {
+    cs.records.len() % 3 == 1
+}
+
+fn idx_attr(cs: &CallSet, idx: impl std::fmt::Display) -> String {
+    if implicit_dictionary(cs) {
+        String::new()
+    } else {
+        format!(",IDX={idx}")
+    }
 }
 
 pub fn gt_idx(cs: &CallSet) -> i32 {
@@ -42,7 +58,7 @@ fn gq_idx(cs: &CallSet) -> i32 {
 /// itself) the indices run against the header line order, as htslib allows with explicit IDX.
 pub fn contig_idx(cs: &CallSet, i: usize) -> usize {
     let n = cs.contigs.len();
-    if n > 1 && cs.contigs[0].len() % 2 == 1 {
+    if !implicit_dictionary(cs) && n > 1 && cs.contigs[0].len() % 2 == 1 {
         n - 1 - i
     } else {
         i
@@ -52,23 +68,23 @@ pub fn contig_idx(cs: &CallSet, i: usize) -> usize {
 pub fn header_text(cs: &CallSet) -> String {
     let mut h = String::new();
     h.push_str(&format!("##fileformat=VCFv{}\n", cs.vcf_version()));
-    h.push_str(&format!("##FILTER=<ID=PASS,Description=\"All filters passed\",IDX={IDX_PASS}>\n"));
-    h.push_str(&format!("##FILTER=<ID=q10,Description=\"Quality below 10\",IDX={IDX_Q10}>\n"));
+    h.push_str(&format!("##FILTER=<ID=PASS,Description=\"All filters passed\"{}>\n", idx_attr(cs, IDX_PASS)));
+    h.push_str(&format!("##FILTER=<ID=q10,Description=\"Quality below 10\"{}>\n", idx_attr(cs, IDX_Q10)));
     for (i, c) in cs.contigs.iter().enumerate() {
-        h.push_str(&format!("##contig=<ID={c},length=100000000,IDX={}>\n", contig_idx(cs, i)));
+        h.push_str(&format!("##contig=<ID={c},length=100000000{}>\n", idx_attr(cs, contig_idx(cs, i))));
     }
-    h.push_str(&format!("##INFO=<ID=DP,Number=1,Type=Integer,Description=\"Total depth\",IDX={IDX_DP}>\n"));
-    h.push_str(&format!("##INFO=<ID=AF,Number=A,Type=Float,Description=\"Allele frequency\",IDX={IDX_AF}>\n"));
-    h.push_str(&format!("##INFO=<ID=DB,Number=0,Type=Flag,Description=\"dbSNP membership\",IDX={IDX_DB}>\n"));
+    h.push_str(&format!("##INFO=<ID=DP,Number=1,Type=Integer,Description=\"Total depth\"{}>\n", idx_attr(cs, IDX_DP)));
+    h.push_str(&format!("##INFO=<ID=AF,Number=A,Type=Float,Description=\"Allele frequency\"{}>\n", idx_attr(cs, IDX_AF)));
+    h.push_str(&format!("##INFO=<ID=DB,Number=0,Type=Flag,Description=\"dbSNP membership\"{}>\n", idx_attr(cs, IDX_DB)));
     h.push_str("##ALT=<ID=DEL,Description=\"Deletion\">\n");
     if wide_dictionary(cs) {
         for k in 0..WIDE_PAD {
             h.push_str(&format!("##INFO=<ID=XI{k:03},Number=1,Type=Integer,Description=\"unused annotation {k}\",IDX={}>\n", IDX_GQ + 1 + k));
         }
     }
-    h.push_str(&format!("##FORMAT=<ID=GT,Number=1,Type=String,Description=\"Genotype\",IDX={}>\n", gt_idx(cs)));
-    h.push_str(&format!("##FORMAT=<ID=DP,Number=1,Type=Integer,Description=\"Read depth\",IDX={IDX_DP}>\n"));
-    h.push_str(&format!("##FORMAT=<ID=GQ,Number=1,Type=Integer,Description=\"Genotype quality\",IDX={}>\n", gq_idx(cs)));
+    h.push_str(&format!("##FORMAT=<ID=GT,Number=1,Type=String,Description=\"Genotype\"{}>\n", idx_attr(cs, gt_idx(cs))));
+    h.push_str(&format!("##FORMAT=<ID=DP,Number=1,Type=Integer,Description=\"Read depth\"{}>\n", idx_attr(cs, IDX_DP)));
+    h.push_str(&format!("##FORMAT=<ID=GQ,Number=1,Type=Integer,Description=\"Genotype quality\"{}>\n", idx_attr(cs, gq_idx(cs))));
     h.push_str("#CHROM\tPOS\tID\tREF\tALT\tQUAL\tFILTER\tINFO\tFORMAT");
     for s in &cs.samples {
         h.push('\t');
